@@ -345,6 +345,16 @@ func (s *Session) replayObligation(prop string, o *Obligation) (bool, map[string
 	// already tried) until one is confirmed on the real code
 	var prev []map[string]string
 	var last map[string]interface{}
+	// an obligation the solvers could not decide (timeout / unknown) has no model to start from and
+	// the staged model search mostly times out as well: run the cheap precondition-model search first
+	preFirst := o.Res != nil && o.Res.Status != "sat" && (!isEffectKind(o.Kind) || hasProp(o.Props, "C18"))
+	if preFirst && !replayBudgetExhausted() {
+		if ok, det := s.searchFailingInput(prop, o); ok {
+			return true, det
+		} else if det != nil {
+			last = map[string]interface{}{"precondition_model_search": det["summary"]}
+		}
+	}
 	for attempt := 0; attempt < 3; attempt++ {
 		if replayBudgetExhausted() {
 			if last == nil {
@@ -372,7 +382,7 @@ func (s *Session) replayObligation(prop string, o *Obligation) (bool, map[string
 	}
 	// no model of the obligation could be confirmed: look for a failing input among models of the
 	// preconditions alone (cached per property, function and instantiation)
-	if (!isEffectKind(o.Kind) || hasProp(o.Props, "C18")) && !replayBudgetExhausted() {
+	if !preFirst && (!isEffectKind(o.Kind) || hasProp(o.Props, "C18")) && !replayBudgetExhausted() {
 		if ok, det := s.searchFailingInput(prop, o); ok {
 			return true, det
 		} else if det != nil && last != nil {
